@@ -162,6 +162,13 @@ func (dcw *DeferredCarWriter) writer() (carstorage.WritableCar, error) {
 		}
 		w, err := carstorage.NewWritable(outStream, dcw.roots, dcw.opts...)
 		if err != nil {
+			if dcw.f != nil {
+				// Nothing was put: do not leave a partly written header, nor its descriptor, behind.
+				// A later Put starts over.
+				_ = dcw.f.Close()
+				_ = os.Remove(dcw.outPath)
+				dcw.f = nil
+			}
 			return nil, err
 		}
 		dcw.w = w
